@@ -662,6 +662,15 @@ func c12Namespaces(w *World, r *Report) {
 				}
 				verdict := "no membership test on the same map and key dominates the insertion: a duplicate declaration silently replaces the earlier one"
 				ok := false
+				// the membership tests on the same container and key: made here on a lookup, or on what a resolver of the container
+				// (a routine that hands out the entry of its lookup, or entry and found) answered for the same key
+				type nsTest struct {
+					entry       ssa.Value
+					lookup      *ssa.Lookup // nil: the test is on the answer of a resolver
+					branch      *ssa.BasicBlock
+					presentSucc int
+				}
+				var nts []nsTest
 				for _, t := range tests {
 					if mapDesc(t.lookup.X) != mapDesc(x.Map) || valueRoot(t.lookup.X) != valueRoot(x.Map) && mapDesc(x.Map) == "local-map" {
 						continue
@@ -669,33 +678,37 @@ func c12Namespaces(w *World, r *Report) {
 					if !sameKey(t.lookup.Index, x.Key) {
 						continue
 					}
-					if !edgeDominates(t.branch, 1-t.presentSucc, b) {
+					nts = append(nts, nsTest{t.lookup, t.lookup, t.branch, t.presentSucc})
+				}
+				for _, cm := range callMemberships(fn) {
+					if crossCallSame(cm.info.lookup.X, x.Map, cm.call) && crossCallSame(cm.info.lookup.Index, x.Key, cm.call) {
+						nts = append(nts, nsTest{cm.call, nil, cm.branch, cm.presentSucc})
+					}
+				}
+				for _, t := range nts {
+					if !edgeDominatesV(t.branch, 1-t.presentSucc, b) {
 						verdict = "a membership test exists but some path reaches the insertion without taking its not-present edge"
 						continue
 					}
 					// present edge reaches AddSyntaxError
-					var diag ssa.CallInstruction
-					for _, bb := range fn.Blocks {
-						if !edgeDominates(t.branch, t.presentSucc, bb) {
-							continue
-						}
-						for _, i2 := range bb.Instrs {
-							if isAddSyntaxError(i2) {
-								diag = i2.(ssa.CallInstruction)
-							}
-						}
-					}
-					if diag == nil {
+					diags := edgeReports(t.branch, t.presentSucc)
+					if len(diags) == 0 {
 						// the helper that owns the name set answers "taken" (a boolean constant on the already-present edge) and the
 						// diagnostic is filed by its callers, on that answer
-						if duplicateAnsweredAndReported(fn, t, funcs) != "" {
+						if t.lookup != nil && duplicateAnsweredAndReported(fn, membership{t.lookup, t.branch, t.presentSucc}, funcs) != "" {
 							ok = true
 							break
 						}
 						verdict = "the already-present edge of the membership test does not report a diagnostic"
 						continue
 					}
-					if src := lineSource(diag, t.lookup); src == "earlier" {
+					earlier := false
+					for _, diag := range diags {
+						if lineSource(diag, t.entry) == "earlier" {
+							earlier = true
+						}
+					}
+					if earlier {
 						verdict = "the duplicate diagnostic takes its line from the EARLIER declaration (the looked-up entry), not from the offending one"
 						continue
 					}
@@ -1071,7 +1084,7 @@ func nsGuardedAtCallSites(w *World, fn *ssa.Function, mu *ssa.MapUpdate, phase [
 }
 
 // lineSource: where does the Line of the SyntaxError passed to AddSyntaxError come from: "earlier" if it derives from the looked-up entry.
-func lineSource(diag ssa.CallInstruction, lk *ssa.Lookup) string {
+func lineSource(diag ssa.CallInstruction, lk ssa.Value) string {
 	args := diag.Common().Args
 	viaRoutine := func() string {
 		// the record is built by the routine that is called (a reporter made for a position): the line it is handed
@@ -1290,14 +1303,9 @@ func collectorRules(w *World, r *Report, ruleLen, ruleLink string) {
 				if !ok || !ta.CommaOk || modelTypeName(ta.AssertedType) != "LengthFieldAttribute" {
 					continue
 				}
-				for _, bb := range fn.Blocks {
-					if edgeDominates(b, 0, bb) {
-						for _, i2 := range bb.Instrs {
-							if isAddSyntaxError(i2) {
-								lenDiag = true
-							}
-						}
-					}
+				// ... directly, or as a judgement that the one report site of the routine files
+				if len(edgeReports(b, 0)) > 0 {
+					lenDiag = true
 				}
 			}
 		}
